@@ -24,6 +24,12 @@ CHECKS = {
             'transaction phase (never reversed; commit only through all_voted ∧ all_yes), R03d decisions on Prepared transactions and '
             'completion are logged before release, R03e no unlogged removal of a logged transaction',
             'MIR reachability under a phase assumption (abstract evaluation of phase tests), cut-reachability over Ok-edges, call-graph effect rule'),
+    'C04': ('§3 C04', 'R04a every candidate row materialised in a Condition-taking method is handed to Condition::evaluate* before the body '
+            'moves on, fetched rows (index hits or scans) reach a success return only through an evaluating loop/closure, and the '
+            'columnar path takes its rows from the vectorised filter of the same condition; R04b the three row evaluators agree on '
+            'the comparator class of every variant and every vectorised arm calls the simd filter of its variant and applies the '
+            'alive mask; R04c every row-mutating engine function maintains both index kinds',
+            'must-follow on MIR CFG, enum-dispatch table agreement across sibling evaluators, constant-propagating reachability'),
     'C05': ('§3 C05', 'R05a the adjacency read-modify-write runs under a lock held in the function or at every call site, R05b '
             'create/delete link the same (list, endpoint, undirected-only) triples and delete_node\'s two branches agree, R05c the edge '
             'record is stored only after node_exists of both endpoints, R05d delete_node reads both edge lists, deletes incident edges '
